@@ -248,6 +248,11 @@ impl DecoderState {
         self.rep_len_decoder = LenDecoder::new();
     }
 
+    #[cfg(feature = "verif")]
+    pub(crate) fn verif_partial_len(&self) -> usize {
+        self.partial_input_buf.position() as usize
+    }
+
     pub fn set_unpacked_size(&mut self, unpacked_size: Option<u64>) {
         self.unpacked_size = unpacked_size;
     }
@@ -282,6 +287,10 @@ impl DecoderState {
         update: bool,
     ) -> error::Result<ProcessingStatus> {
         let pos_state = output.len() & ((1 << self.lzma_props.pb) - 1);
+        #[cfg(feature = "verif")]
+        let verif_state_before = self.state as u8;
+        #[cfg(feature = "verif")]
+        let mut verif_rep_idx = 0u8;
 
         // Literal
         if !rangecoder.decode_bit(
@@ -293,6 +302,15 @@ impl DecoderState {
 
             if update {
                 lzma_debug!("Literal: {}", byte);
+                #[cfg(feature = "verif")]
+                crate::verif::emit(crate::verif::Event::Sym {
+                    kind: crate::verif::SYM_LIT,
+                    rep_idx: 0,
+                    len: 1,
+                    dist: byte as u64,
+                    state_before: verif_state_before,
+                    out_len: output.len() as u64,
+                });
                 output.append_literal(byte)?;
 
                 self.state = if self.state < 4 {
@@ -321,6 +339,15 @@ impl DecoderState {
                     if update {
                         self.state = if self.state < 7 { 9 } else { 11 };
                         let dist = self.rep[0] + 1;
+                        #[cfg(feature = "verif")]
+                        crate::verif::emit(crate::verif::Event::Sym {
+                            kind: crate::verif::SYM_SHORTREP,
+                            rep_idx: 0,
+                            len: 1,
+                            dist: dist as u64,
+                            state_before: verif_state_before,
+                            out_len: output.len() as u64,
+                        });
                         output.append_lz(1, dist)?;
                     }
                     return Ok(ProcessingStatus::Continue);
@@ -335,6 +362,10 @@ impl DecoderState {
                 } else {
                     idx = 3;
                 }
+                #[cfg(feature = "verif")]
+                {
+                    verif_rep_idx = idx as u8;
+                }
                 if update {
                     // Update LRU
                     let dist = self.rep[idx];
@@ -346,6 +377,18 @@ impl DecoderState {
             }
 
             len = self.rep_len_decoder.decode(rangecoder, pos_state, update)?;
+
+            #[cfg(feature = "verif")]
+            if update {
+                crate::verif::emit(crate::verif::Event::Sym {
+                    kind: crate::verif::SYM_REP,
+                    rep_idx: verif_rep_idx,
+                    len: (len + 2) as u32,
+                    dist: self.rep[0] as u64 + 1,
+                    state_before: verif_state_before,
+                    out_len: output.len() as u64,
+                });
+            }
 
             if update {
                 // update state (rep)
@@ -368,6 +411,22 @@ impl DecoderState {
             }
 
             let rep_0 = self.decode_distance(rangecoder, len, update)?;
+
+            #[cfg(feature = "verif")]
+            if update {
+                crate::verif::emit(crate::verif::Event::Sym {
+                    kind: if rep_0 == 0xFFFF_FFFF {
+                        crate::verif::SYM_EOS
+                    } else {
+                        crate::verif::SYM_MATCH
+                    },
+                    rep_idx: 0,
+                    len: (len + 2) as u32,
+                    dist: rep_0 as u64 + 1,
+                    state_before: verif_state_before,
+                    out_len: output.len() as u64,
+                });
+            }
 
             if update {
                 self.rep[0] = rep_0;
@@ -439,6 +498,8 @@ impl DecoderState {
         mode: ProcessingMode,
     ) -> error::Result<()> {
         loop {
+            #[cfg(feature = "verif")]
+            crate::verif::emit(crate::verif::Event::Tick(crate::verif::TICK_LZMA_LOOP));
             if let Some(unpacked_size) = self.unpacked_size {
                 if output.len() as u64 >= unpacked_size {
                     break;
